@@ -293,6 +293,27 @@ func scaledPrograms(tier string) []engineProgram {
 	return out
 }
 
+// hugePrograms: single scripts with thousands of sub-labels (a statement template repeated K times for a few large K):
+// per-script capacities - a bitset, a fixed table, a narrow integer for chunk ids - show here and nowhere else.
+func hugePrograms(tier string) []engineProgram {
+	ks := []int{350, 1100, 22000} // (3 x 22000 sub-labels: beyond 16 bits)
+	if tier == "thorough" {
+		ks = []int{350, 1100, 3000, 22000, 45000}
+	}
+	ts := seqTemplates()
+	var out []engineProgram
+	for _, ti := range []int{1, 2, 7, 13} { // if, if/else, while, switch with break and default
+		for _, k := range ks {
+			body := make([]model.Stmt, 0, 2*k)
+			for i := 0; i < k; i++ {
+				body = append(body, ts[ti](i), mcmd(fmt.Sprintf("s%d", i)))
+			}
+			out = append(out, engineProgram{Desc: fmt.Sprintf("huge: template %d x %d in one script", ti, k), Script: &model.Script{Name: "S", Body: body}})
+		}
+	}
+	return out
+}
+
 // mixedNestingPrograms: block kinds of different kinds nested in every order (see the comment inside).
 func mixedNestingPrograms(tier string) []engineProgram {
 	var out []engineProgram
